@@ -1,6 +1,7 @@
 """./check configuration for C15 (see verif_props.py)."""
 
-PROP = {'module': 'GolibsVerif.Theorems.C15',
+PROP = {'technique': 'Lean induction over all Read/Write histories and all wrapped-reader behaviours (budget invariant); differential tie with scripted readers/writers',
+ 'module': 'GolibsVerif.Theorems.C15',
  'namespace': 'GolibsVerif.C15',
  'rule': 'scripts of Read/Write calls against a scripted wrapped reader/writer (short reads, (0,nil), EOF, injected errors, negative '
          'counts); non-trivial = the limit is reached or a fault is injected; distinct = distinct case line',
